@@ -50,23 +50,21 @@ type Contract struct {
 	Trusted  bool
 	IsLemma  bool
 	IsPred   bool
+	Pure     bool
 	Params   []string // lemma parameters
 	PTypes   []string
 	File     string
 	Line     int
 	Lets     []*Clause // let name = expr (evaluated in the entry state)
+	PostLets []*Clause // letpost name = expr (evaluated in each exit state, before the ensures clauses)
 	Modifies []string
 	HasMod   bool
 	Bounded  string
 	Notes    []string
 }
 
-func (c *Contract) Prop() string {
-	if len(c.Props) > 0 {
-		return c.Props[0]
-	}
-	return ""
-}
+// Prop is the property tag of obligations without an explicit [Cxx] override: "*" = every property the contract lists.
+func (c *Contract) Prop() string { return "*" }
 
 // ---------- lexer / parser ----------
 
@@ -454,6 +452,8 @@ func parseContractFile(data, file, pkgPath string) ([]*Contract, error) {
 				cur.NoPanic = true
 			case "modular":
 				cur.Modular = true
+			case "pure":
+				cur.Pure = true
 			case "trusted":
 				cur.Trusted = true
 				cur.Modular = true
@@ -468,7 +468,7 @@ func parseContractFile(data, file, pkgPath string) ([]*Contract, error) {
 						cur.Modifies = append(cur.Modifies, p)
 					}
 				}
-			case "requires", "ensures", "fails_if", "cover", "let", "loop", "assume_env":
+			case "requires", "ensures", "fails_if", "cover", "let", "letpost", "loop", "assume_env":
 				cl := &Clause{Kind: word}
 				if word == "fails_if" {
 					cl.Kind = "failsif"
@@ -504,7 +504,7 @@ func parseContractFile(data, file, pkgPath string) ([]*Contract, error) {
 					cl.Tag = strings.TrimSpace(rest[1:j])
 					rest = strings.TrimSpace(rest[j+1:])
 				}
-				if word == "let" {
+				if word == "let" || word == "letpost" {
 					j := strings.IndexByte(rest, '=')
 					if j < 0 {
 						return nil, fail("let needs '='")
@@ -535,6 +535,8 @@ func parseContractFile(data, file, pkgPath string) ([]*Contract, error) {
 				}
 				if word == "let" {
 					cur.Lets = append(cur.Lets, cl)
+				} else if word == "letpost" {
+					cur.PostLets = append(cur.PostLets, cl)
 				} else {
 					cur.Clauses = append(cur.Clauses, cl)
 				}
